@@ -37,6 +37,9 @@ def plans(tier):
         ((('add', 1), ('insert', 2)), (('clear', 0),), (('insert', 3),)),
         # short enough for every single pre-emption to be tried (a clear between the controller's length test and its pop)
         ((('add', 1),), (('clear', 0),)),
+        # a stop request by name aimed at a background job whose body goes on for a while (TJob ignores it): the job is
+        # "reported as running under its name exactly while it executes", stop request or not, and forgotten when it ends
+        ((('spawn', 1), ('stopbg', 1), ('add', 2)), (('spawn', 3),)),
     ]
     if tier == 'thorough':
         out += [
@@ -67,7 +70,7 @@ def model_check(report, plan_list, tier):
     module = base.replace('AllProcs ==', defs + '\nAllProcs ==')
     checked = []
     for i, plan in enumerate(plan_list):
-        if any(op == 'clear' for ops in plan for op, _ in ops):
+        if any(op in ('clear', 'stopbg') for ops in plan for op, _ in ops):
             continue
         big = nops(plan) >= 4
         if tier != 'thorough' and big and len(plan) >= 3:
@@ -137,6 +140,8 @@ def run_plan(plan, behaviour, policy, line_level, observer=True):
                     control.insert_job(TJob(j), 'job%d' % j)
                 elif op == 'clear':
                     control.clear_queue()
+                elif op == 'stopbg':
+                    control.stop_job('job%d' % j)
                 else:
                     control.spawn_job(TJob(j), 'job%d' % j)
                 events.append({'e': 'ret', 'c': cid, 'op': op, 'j': j})
